@@ -403,6 +403,77 @@ class Repo(object):
           yield m, n
 
 
+def _resolve_base(repo, module, base_expr):
+  """ClassDef a base-class expression refers to (by import table, then by
+  unique class name), else None."""
+  d = dotted(base_expr)
+  if d is None:
+    return None
+  parts = d.split('.')
+  name = parts[-1]
+  cands = [(m, c) for m in repo.modules.values()
+           for q, c in m.classes.items() if q == name]
+  if len(parts) == 1 and name in module.classes:
+    return module.classes[name]
+  if len(parts) >= 2 and parts[-2] in module.imports:
+    target = module.imports[parts[-2]].replace('.', '/') + '.py'
+    for m, c in cands:
+      if m.relpath.endswith(target):
+        return c
+  if len(parts) == 1 and name in module.imports:
+    target = module.imports[name].rsplit('.', 1)[0].replace('.', '/') + '.py'
+    for m, c in cands:
+      if m.relpath.endswith(target):
+        return c
+  if len(cands) == 1:
+    return cands[0][1]
+  return None
+
+
+def subclasses_of(repo, root_cls):
+  """All ClassDefs (transitively) deriving from root_cls, root excluded."""
+  direct = {}
+  for m in repo.modules.values():
+    for q, c in m.classes.items():
+      for b in c.bases:
+        r = _resolve_base(repo, m, b)
+        if r is not None:
+          direct.setdefault(id(r), []).append(c)
+  out, stack, seen = [], [root_cls], set()
+  while stack:
+    c = stack.pop()
+    for s in direct.get(id(c), []):
+      if id(s) not in seen:
+        seen.add(id(s))
+        out.append(s)
+        stack.append(s)
+  return out
+
+
+def ancestors_of(repo, cls_node):
+  out, stack = [], [cls_node]
+  while stack:
+    c = stack.pop()
+    for b in c.bases:
+      r = _resolve_base(repo, c._module, b)
+      if r is not None and r not in out:
+        out.append(r)
+        stack.append(r)
+  return out
+
+
+def is_abstract_class(cls_node):
+  for b in cls_node.bases:
+    if dotted(b) in ('abc.ABC', 'ABC'):
+      return True
+  for n in ast.walk(cls_node):
+    if isinstance(n, ast.FunctionDef):
+      for d in n.decorator_list:
+        if dotted(d) in ('abc.abstractmethod', 'abstractmethod'):
+          return True
+  return False
+
+
 def owner_qualname(node):
   """Qualified name of the innermost function (or class / <module>) holding
   node."""
